@@ -211,7 +211,7 @@ def appendable_lines(src):
 
 SPECIALS = {
     "incomplete-match": 'from typing import Literal\ndef mfn(x: Literal["a", "b", "c"]):\n  match x:\n    case "a":\n      return 1\n    case "b":\n      return 2\n',
-    "incomplete-match|fallthrough": 'from typing import Literal\ndef mfn(x: Literal["a", "b", "c"]):\n  match x:\n    case "a":\n      y = 1\n    case "b":\n      y = 2\n  return 0\n',
+    "incomplete-match|fallthrough": 'from typing import Literal\ndef mfn(x: Literal["a", "b", "c"]):\n  match x:\n    case "a":\n      y = 1\n    case "b":\n      y = 2\n  print(y)\n',
     "incomplete-match|ML": 'from typing import Literal\ndef mfn(x: Literal["a", "b", "c"]):\n  match (x\n         ):\n    case ("a" |\n          "b"):\n      return 1\n',
     "incomplete-match|nested": 'from typing import Literal\ndef mn(x: Literal["a", "b"], c):\n  if c:\n    match x:\n      case "a":\n        return 1\n  return 2\n',
     "redundant-match": 'from typing import Literal\ndef mfn(x: Literal["a", "b"]):\n  match x:\n    case "a":\n      return 1\n    case "a":\n      return 3\n    case "b":\n      return 2\n',
